@@ -360,7 +360,11 @@ pub mod public {
         /// a related WeakNode to be deallocated. If you wish to use the related node after
         /// (i.e. to invalidate it) then upgrade the WeakNode first.
         pub fn remove_dependency<D: Value>(&self, dep: Dependency<D>) {
-            let edge = dep.edge.upgrade().unwrap();
+            /* The edge is already gone if this node had been invalidated when the dependency
+            was added (add_dependency drops the edge then): nothing is left to remove. */
+            let Some(edge) = dep.edge.upgrade() else {
+                return;
+            };
             expert::remove_dependency(&*self.incr.node, &*edge);
         }
     }
